@@ -4,6 +4,7 @@
   implementation side printing the same format.
 -/
 import ElfVerif.Model.Show
+import ElfVerif.Model.Stream
 open Elf
 
 def hexVal (c : Char) : Nat :=
@@ -141,6 +142,40 @@ def symverQueries (t : SymbolVersionTable) (idxs : List Nat) : String :=
   ";".intercalate (idxs.map fun i =>
     s!"r{i}=" ++ showReq (t.getRequirement i) ++ s!";d{i}=" ++ showDef (t.getDefinition i))
 
+/-- content rendering of a window (stream parser results are copies, location is meaningless) -/
+def fnvBytes (s : Slice) : UInt64 :=
+  (List.range s.len).foldl (fun h i => (h ^^^ (UInt8.ofNat (s.byte i)).toUInt64) * 0x100000001b3) 0xcbf29ce484222325
+
+def showContent (s : Slice) : String := s!"#{s.len}:{fnvBytes s}"
+
+def Note.showC : Note → String
+  | .gnuAbiTag t => "note:" ++ t.show
+  | .gnuBuildId d => "note:buildid(" ++ showContent d ++ ")"
+  | .unknown ty name desc =>
+    s!"note:any({ty},{showContent name},{showContent desc},str=" ++
+      showOut showContent (noteNameStr name) ++ ")"
+
+def notesTranscriptC (it : NoteIter) : String :=
+  let (r, it0) := it.collect
+  let (p1, _) := it0.next
+  showOut (fun l => "[" ++ " ".intercalate (l.map Note.showC) ++ "]") r ++
+    " post=" ++ showOut (showOpt Note.showC) p1
+
+def showStrtabC (t : Slice) : String :=
+  "strtab(" ++ showContent t ++ "," ++ showOut showContent (strGetRaw t 0) ++ "/" ++ showOut showContent (strGetRaw t 1) ++ ")"
+
+def showReqC (r : Out (Option SymbolRequirement)) : String :=
+  showOut (showOpt fun q => s!"req({showContent q.file},{showContent q.name},{q.hash},{q.flags},{showBool q.hidden})") r
+
+def showDefC (r : Out (Option SymbolDefinition)) : String :=
+  showOut (showOpt fun q =>
+    s!"def({q.hash},{q.flags},{showBool q.hidden},names=" ++
+      showOut (fun l => "[" ++ " ".intercalate (l.map (showOut showContent)) ++ "]") q.collectNames ++ ")") r
+
+def symverQueriesC (t : SymbolVersionTable) (idxs : List Nat) : String :=
+  ";".intercalate (idxs.map fun i =>
+    s!"r{i}=" ++ showReqC (t.getRequirement i) ++ s!";d{i}=" ++ showDefC (t.getDefinition i))
+
 def splitNats (s : String) : List Nat :=
   if s == "-" || s == "" then [] else (s.splitOn ".").map nat!
 
@@ -231,6 +266,91 @@ def fileQuery (f : ElfBytes) (q : String) : String :=
     "V=" ++ showOut (showOpt fun t => symverQueries t (splitNats body)) f.symbolVersionTable
   | _ => "bad-query"
 
+def parseFault (s : String) : Fault :=
+  if s == "i" then .interrupted
+  else if s == "f" then .fail
+  else if s == "e" then .eof
+  else if s.startsWith "s" then .short (nat! (s.drop 1).toString)
+  else .none
+
+def parseSched (s : String) : List Fault :=
+  if s == "-" then [] else (s.splitOn ",").map parseFault
+
+/-- per seek: `pos:bytes read until the next seek` (coalesced, deterministic) -/
+def ioSummary (tr : List IoEvent) : String :=
+  let rec go (evs : List IoEvent) (cur : Option (Nat × Nat)) (acc : List String) : List String :=
+    match evs with
+    | [] => (match cur with | some (p, b) => acc ++ [s!"{p}:{b}"] | none => acc)
+    | .seekEnd :: rest => go rest (some (0, 0)) ((match cur with | some (p, b) => acc ++ [s!"{p}:{b}"] | none => acc) ++ ["end"])
+    | .seek p :: rest => go rest (some (p, 0)) (match cur with | some (q, b) => acc ++ [s!"{q}:{b}"] | none => acc)
+    | .read _ got :: rest => go rest (match cur with | some (p, b) => some (p, b + got) | none => some (0, got)) acc
+    | _ :: rest => go rest cur acc
+  ",".intercalate (go tr none [])
+
+def iterTranscriptC {α} (sh : α → String) (it : Iter α) : String := iterTranscript sh it
+
+def streamOp (s : ElfStream) (q : String) : String × ElfStream :=
+  let body := (q.drop 1).toString
+  match q.front with
+  | 'T' =>
+    let (r, s') := s.sectionHeadersWithStrtab
+    ("T=" ++ showOut (showOpt showStrtabC) r, s')
+  | 'S' =>
+    let i := nat! body
+    match s.shdrs[i]? with
+    | none => (s!"S{i}=oob", s)
+    | some sh =>
+      let (d, s1) := s.sectionData sh
+      let (st, s2) := s1.sectionDataAsStrtab sh
+      let (rl, s3) := s2.sectionDataAsRels sh
+      let (ra, s4) := s3.sectionDataAsRelas sh
+      let (nt, s5) := s4.sectionDataAsNotes sh
+      (s!"S{i}=" ++ sh.show ++
+        " data=" ++ showOut (fun (r : Slice × Option CompressionHeader) =>
+            showContent r.1 ++ "," ++ showOpt CompressionHeader.show r.2) d ++
+        " strtab=" ++ showOut showStrtabC st ++
+        " rels=" ++ showOut (iterTranscript Rel.show) rl ++
+        " relas=" ++ showOut (iterTranscript Rela.show) ra ++
+        " notes=" ++ showOut notesTranscriptC nt, s5)
+  | 'P' =>
+    let i := nat! body
+    match s.phdrs[i]? with
+    | none => (s!"P{i}=oob", s)
+    | some ph =>
+      let (nt, s1) := s.segmentDataAsNotes ph
+      (s!"P{i}=" ++ ph.show ++ " notes=" ++ showOut notesTranscriptC nt, s1)
+  | 'N' =>
+    let (r, s') := s.sectionHeaderByName (sliceOfHex body)
+    ("N=" ++ showOut (showOpt SectionHeader.show) r, s')
+  | 'Y' =>
+    let (r, s') := s.symbolTable
+    ("Y=" ++ showOut (showOpt fun (r : Table Symbol × Slice) => tableDigest Symbol.show r.1 ++ "," ++ showStrtabC r.2) r, s')
+  | 'D' =>
+    let (r, s') := s.dynamicSymbolTable
+    ("D=" ++ showOut (showOpt fun (r : Table Symbol × Slice) => tableDigest Symbol.show r.1 ++ "," ++ showStrtabC r.2) r, s')
+  | 'd' =>
+    let (r, s') := s.dynamic
+    ("d=" ++ showOut (showOpt (tableDigest Dyn.show)) r, s')
+  | 'V' =>
+    let (r, s') := s.symbolVersionTable
+    ("V=" ++ showOut (showOpt fun t => symverQueriesC t (splitNats body)) r, s')
+  | _ => ("bad-query", s)
+
+def listDigest {α} (sh : α → String) (l : List α) : String :=
+  let h := l.foldl (fun (st : UInt64 × Bool) a => (fnvAdd (if st.2 then st.1 else fnvAdd st.1 " ") (sh a), false)) (fnv "ok [", true)
+  s!"n={l.length} h={fnvAdd h.1 "]"}"
+
+def handleStream (sp sched ops : String) (content : Array UInt8) : String :=
+  let dev : Device := ⟨content, 0, parseSched sched, []⟩
+  match openStream (parseSpec sp) dev with
+  | (.ok s, _) =>
+    let head := "open=ok " ++ s.ehdr.show ++ " shdrs=" ++ listDigest SectionHeader.show s.shdrs ++
+      " phdrs=" ++ listDigest ProgramHeader.show s.phdrs
+    let (outs, sfin) := (if ops == "-" then [] else ops.splitOn ",").foldl
+      (fun (acc : List String × ElfStream) q => let (o, s') := streamOp acc.2 q; (acc.1 ++ [o], s')) ([], s)
+    ";".intercalate ([head] ++ outs ++ ["io=" ++ ioSummary sfin.reader.dev.trace])
+  | (r, d) => "open=" ++ showOut (fun _ => "") r ++ ";io=" ++ ioSummary d.trace
+
 def handle (line0 : String) : String :=
   let line := (line0.splitOn "\t").headD ""
   match line.trimAscii.toString.splitOn " " with
@@ -298,6 +418,8 @@ def handle (line0 : String) : String :=
     let arr := parseHex hex
     handleFile sp queries (Slice.ofArray (arr.extract 0 (nat! k)))
   | ["file", sp, queries, hex] => handleFile sp queries (sliceOfHex hex)
+  | ["stream", sp, sched, ops, hex] => handleStream sp sched ops (parseHex hex)
+  | ["sprefix", sp, ops, k, hex] => handleStream sp "-" ops ((parseHex hex).extract 0 (nat! k))
   | _ => "bad-op"
 where
   handleFile (sp queries : String) (d : Slice) : String :=
